@@ -183,15 +183,15 @@ Proof.
 Qed.
 
 (* ---------------------------------------------------------------- remote ids *)
-Lemma try_accept_spec strict s d idx s' res up :
-  try_accept_sid strict s d idx = (s', res, up) ->
+Lemma try_accept_spec strict mono s d idx s' res up :
+  try_accept_sid strict mono s d idx = (s', res, up) ->
   match res with
   | AccExceed m => s' = s /\ m = pget (r_max s) d /\ over_limit strict idx m = true
   | AccOld => s' = s /\ idx < pget (r_next s) d /\ over_limit strict idx (pget (r_max s) d) = false
   | AccNew first last =>
       first = pget (r_next s) d /\ last = idx /\ first <= idx
       /\ over_limit strict idx (pget (r_max s) d) = false
-      /\ r_next s' = pset (r_next s) d (idx + 1) /\ r_max s' = r_max s
+      /\ r_next s' = pset (r_next s) d (idx + 1) /\ r_max s' = r_max s /\ up = None
   end.
 Proof.
   unfold try_accept_sid. intros H.
@@ -199,15 +199,15 @@ Proof.
   - inversion H; subst. auto.
   - destruct (N.ltb_spec idx (pget (r_next s) d)).
     + inversion H; subst. auto.
-    + unfold ctrl_on_accept in H. inversion H; subst. cbn. repeat split; auto.
+    + unfold ctrl_on_accept, apply_up in H. inversion H; subst. cbn. repeat split; auto.
 Qed.
 
 (* what the code guarantees: an accepted index is at most the limit *)
-Lemma p_c12_accept_le s d idx s' res up :
-  try_accept_sid false s d idx = (s', res, up) ->
+Lemma p_c12_accept_le mono s d idx s' res up :
+  try_accept_sid false mono s d idx = (s', res, up) ->
   (forall m, res <> AccExceed m) -> idx <= pget (r_max s) d.
 Proof.
-  intros H NE. pose proof (try_accept_spec _ _ _ _ _ _ _ H) as A.
+  intros H NE. pose proof (try_accept_spec _ _ _ _ _ _ _ _ H) as A.
   destruct res.
   - exfalso; eapply NE; reflexivity.
   - destruct A as (_ & _ & O). unfold over_limit in O. apply N.ltb_ge in O. exact O.
@@ -215,17 +215,17 @@ Proof.
 Qed.
 
 (* the full-strength statement, conditional on the known class F14 (index = limit) *)
-Lemma p_c12_accept_bound s d idx s' res up :
-  try_accept_sid false s d idx = (s', res, up) ->
+Lemma p_c12_accept_bound mono s d idx s' res up :
+  try_accept_sid false mono s d idx = (s', res, up) ->
   idx <> pget (r_max s) d ->
   (forall m, res <> AccExceed m) -> idx < pget (r_max s) d.
 Proof.
-  intros H NK NE. pose proof (p_c12_accept_le _ _ _ _ _ _ H NE). lia.
+  intros H NK NE. pose proof (p_c12_accept_le _ _ _ _ _ _ _ H NE). lia.
 Qed.
 
 (* and conversely everything below the limit is accepted, everything above is refused *)
-Lemma p_c12_accept_exact strict s d idx :
-  (exists m, snd (fst (try_accept_sid strict s d idx)) = AccExceed m)
+Lemma p_c12_accept_exact strict mono s d idx :
+  (exists m, snd (fst (try_accept_sid strict mono s d idx)) = AccExceed m)
   <-> over_limit strict idx (pget (r_max s) d) = true.
 Proof.
   unfold try_accept_sid. destruct (over_limit strict idx (pget (r_max s) d)) eqn:O; cbn.
@@ -235,11 +235,11 @@ Proof.
 Qed.
 
 (* the RFC's comparison never lets the boundary index in *)
-Lemma p_c12_accept_bound_strict s d idx s' res up :
-  try_accept_sid true s d idx = (s', res, up) ->
+Lemma p_c12_accept_bound_strict mono s d idx s' res up :
+  try_accept_sid true mono s d idx = (s', res, up) ->
   (forall m, res <> AccExceed m) -> idx < pget (r_max s) d.
 Proof.
-  intros H NE. pose proof (try_accept_spec _ _ _ _ _ _ _ H) as A.
+  intros H NE. pose proof (try_accept_spec _ _ _ _ _ _ _ _ H) as A.
   destruct res.
   - exfalso; eapply NE; reflexivity.
   - destruct A as (_ & _ & O). unfold over_limit in O. apply N.leb_gt in O. exact O.
@@ -257,10 +257,10 @@ Definition qget (p : list N * list N) (d : dir) : list N := match d with Bi => f
 Definition qset (p : list N * list N) (d : dir) (v : list N) : list N * list N :=
   match d with Bi => (v, snd p) | Uni => (fst p, v) end.
 
-Definition rl_step (strict : bool) (peer : role) (x : rl) (o : rop) : rl :=
+Definition rl_step (strict mono : bool) (peer : role) (x : rl) (o : rop) : rl :=
   match o with
   | RUse d idx =>
-    let '(s', res, _) := try_accept_sid strict (rl_s x) d idx in
+    let '(s', res, _) := try_accept_sid strict mono (rl_s x) d idx in
     match res with
     | AccNew first last =>
       mkrl s' (qset (rl_q x) d (qget (rl_q x) d ++ map (sid_of peer d) (need_create first last))) (rl_y x)
@@ -271,11 +271,11 @@ Definition rl_step (strict : bool) (peer : role) (x : rl) (o : rop) : rl :=
     | [] => x
     | sid :: q => mkrl (rl_s x) (qset (rl_q x) d q) (qset (rl_y x) d (qget (rl_y x) d ++ [sid]))
     end
-  | REnd d idx => mkrl (fst (on_end_of_stream (rl_s x) d idx)) (rl_q x) (rl_y x)
-  | RBlocked d v => mkrl (fst (recv_streams_blocked (rl_s x) d v)) (rl_q x) (rl_y x)
+  | REnd d idx => mkrl (fst (on_end_of_stream mono (rl_s x) d idx)) (rl_q x) (rl_y x)
+  | RBlocked d v => mkrl (fst (recv_streams_blocked mono (rl_s x) d v)) (rl_q x) (rl_y x)
   end.
 
-Definition rl_exec strict peer := fold_left (rl_step strict peer).
+Definition rl_exec strict mono peer := fold_left (rl_step strict mono peer).
 
 (* yielded ++ queued = the ids of indices 0 .. next-1, in order, without repetition *)
 Definition Rinv (peer : role) (x : rl) : Prop :=
@@ -297,19 +297,22 @@ Proof. destruct d, d'; intro; try reflexivity; congruence. Qed.
 Lemma dir_dec (a b : dir) : {a = b} + {a <> b}.
 Proof. decide equality. Qed.
 
-Lemma end_next s d idx : r_next (fst (on_end_of_stream s d idx)) = r_next s.
-Proof. unfold on_end_of_stream. destruct (ctrl_on_end (r_ctrl s) d idx) as [c [m|]]; reflexivity. Qed.
-Lemma blocked_next s d v : r_next (fst (recv_streams_blocked s d v)) = r_next s.
-Proof. unfold recv_streams_blocked. destruct (ctrl_on_blocked (r_ctrl s) d v) as [c [m|]]; reflexivity. Qed.
+Lemma end_next mono s d idx : r_next (fst (on_end_of_stream mono s d idx)) = r_next s.
+Proof. unfold on_end_of_stream. destruct (ctrl_on_end (r_ctrl s) d idx) as [c up]. destruct (apply_up mono (r_max s) d up). reflexivity. Qed.
+Lemma blocked_next mono s d v : r_next (fst (recv_streams_blocked mono s d v)) = r_next s.
+Proof.
+  unfold recv_streams_blocked. destruct (mono && _); [reflexivity|].
+  destruct (ctrl_on_blocked _ _ _) as [c up]. destruct (apply_up mono (r_max s) d up). reflexivity.
+Qed.
 
-Lemma Rinv_step strict peer x o : Rinv peer x -> Rinv peer (rl_step strict peer x o).
+Lemma Rinv_step strict mono peer x o : Rinv peer x -> Rinv peer (rl_step strict mono peer x o).
 Proof.
   intros I. destruct o as [d idx|d|d idx|d v]; cbn [rl_step].
-  - destruct (try_accept_sid strict (rl_s x) d idx) as [[s' res] up] eqn:E.
-    pose proof (try_accept_spec _ _ _ _ _ _ _ E) as A. destruct res.
+  - destruct (try_accept_sid strict mono (rl_s x) d idx) as [[s' res] up] eqn:E.
+    pose proof (try_accept_spec _ _ _ _ _ _ _ _ E) as A. destruct res.
     + destruct A as (-> & _). exact I.
     + destruct A as (-> & _). exact I.
-    + destruct A as (-> & -> & Hle & _ & Hn & _). intro d'. cbn [rl_s rl_q rl_y].
+    + destruct A as (-> & -> & Hle & _ & Hn & _ & _). intro d'. cbn [rl_s rl_q rl_y].
       destruct (dir_dec d d') as [<-|Hd].
       * rewrite qget_qset_same, Hn, pget_pset_same, app_assoc, (I d), <- map_app. f_equal.
         unfold need_create.
@@ -326,8 +329,8 @@ Qed.
 
 Definition rl_init (s : rsid) : rl := mkrl s ([], []) ([], []).
 
-Lemma p_c12_implicit_open strict peer ops s :
-  r_next s = (0, 0) -> Rinv peer (rl_exec strict peer ops (rl_init s)).
+Lemma p_c12_implicit_open strict mono peer ops s :
+  r_next s = (0, 0) -> Rinv peer (rl_exec strict mono peer ops (rl_init s)).
 Proof.
   intros H0. unfold rl_exec.
   assert (I0 : Rinv peer (rl_init s)).
@@ -337,12 +340,12 @@ Proof.
 Qed.
 
 (* using index n makes every index <= n exist at once *)
-Lemma p_c12_implicit_all strict s d idx s' first last up :
-  try_accept_sid strict s d idx = (s', AccNew first last, up) ->
+Lemma p_c12_implicit_all strict mono s d idx s' first last up :
+  try_accept_sid strict mono s d idx = (s', AccNew first last, up) ->
   need_create first last = range_nat (pget (r_next s) d) (N.to_nat (idx + 1 - pget (r_next s) d))
   /\ pget (r_next s') d = idx + 1.
 Proof.
-  intros H. pose proof (try_accept_spec _ _ _ _ _ _ _ H) as (-> & -> & _ & _ & Hn & _).
+  intros H. pose proof (try_accept_spec _ _ _ _ _ _ _ _ H) as (-> & -> & _ & _ & Hn & _).
   split; [reflexivity|]. rewrite Hn. apply pget_pset_same.
 Qed.
 
@@ -359,11 +362,146 @@ Lemma sid_of_inj r d i j : sid_of r d i = sid_of r d j -> i = j.
 Proof. intro H. apply (f_equal sid_idx) in H. rewrite !sid_of_idx in H. exact H. Qed.
 
 (* hence no stream is offered twice *)
-Lemma p_c12_implicit_once strict peer ops s d :
+Lemma p_c12_implicit_once strict mono peer ops s d :
   r_next s = (0, 0) ->
-  NoDup (qget (rl_y (rl_exec strict peer ops (rl_init s))) d ++ qget (rl_q (rl_exec strict peer ops (rl_init s))) d).
+  NoDup (qget (rl_y (rl_exec strict mono peer ops (rl_init s))) d ++ qget (rl_q (rl_exec strict mono peer ops (rl_init s))) d).
 Proof.
-  intro H0. rewrite (p_c12_implicit_open strict peer ops s H0 d).
+  intro H0. rewrite (p_c12_implicit_open strict mono peer ops s H0 d).
   apply Injective_map_NoDup; [|apply NoDup_range].
   intros i j. apply sid_of_inj.
 Qed.
+
+(* ---------------------------------------------------------------- the advertised limit (F27) *)
+(* RemoteStreamIds::raise_limit: whatever the strategy answers, the limit never goes down, and a
+   MAX_STREAMS frame is queued exactly when it goes up, carrying the new limit *)
+Lemma apply_up_spec max d up max' adv :
+  apply_up true max d up = (max', adv) ->
+  (forall d', pget max d' <= pget max' d')
+  /\ match adv with
+     | Some a => a = pget max' d /\ pget max d < a /\ up = Some a
+     | None => max' = max
+     end.
+Proof.
+  unfold apply_up, raise_limit. destruct up as [m|]; intro H.
+  - destruct (N.ltb_spec (pget max d) m); inversion H; subst.
+    + split.
+      * intro d'. destruct (dir_dec d d') as [<-|Hd]; [rewrite pget_pset_same; lia|].
+        rewrite pget_pset_other by assumption. lia.
+      * rewrite pget_pset_same. auto.
+    + split; [intro; lia|reflexivity].
+  - inversion H; subst. split; [intro; lia|reflexivity].
+Qed.
+
+Definition max_le (a b : N * N) : Prop := forall d, pget a d <= pget b d.
+
+Lemma accept_max_mono strict s d idx : max_le (r_max s) (r_max (fst (fst (try_accept_sid strict true s d idx)))).
+Proof.
+  destruct (try_accept_sid strict true s d idx) as [[s' res] up] eqn:E.
+  pose proof (try_accept_spec _ _ _ _ _ _ _ _ E) as A. cbn [fst]. intro d'.
+  destruct res; [destruct A as (-> & _)|destruct A as (-> & _)|destruct A as (_ & _ & _ & _ & _ & -> & _)]; lia.
+Qed.
+
+Lemma end_max_mono s d idx :
+  max_le (r_max s) (r_max (fst (on_end_of_stream true s d idx)))
+  /\ match snd (on_end_of_stream true s d idx) with
+     | Some a => a = pget (r_max (fst (on_end_of_stream true s d idx))) d /\ pget (r_max s) d < a
+     | None => r_max (fst (on_end_of_stream true s d idx)) = r_max s
+     end.
+Proof.
+  unfold on_end_of_stream. destruct (ctrl_on_end (r_ctrl s) d idx) as [c up].
+  destruct (apply_up true (r_max s) d up) as [max' adv] eqn:E. cbn [fst snd r_max].
+  destruct (apply_up_spec _ _ _ _ _ E) as [H1 H2]. split; [exact H1|].
+  destruct adv; [tauto|exact H2].
+Qed.
+
+Lemma blocked_max_mono s d v :
+  max_le (r_max s) (r_max (fst (recv_streams_blocked true s d v)))
+  /\ match snd (recv_streams_blocked true s d v) with
+     | Some a => a = pget (r_max (fst (recv_streams_blocked true s d v))) d /\ pget (r_max s) d < a
+     | None => r_max (fst (recv_streams_blocked true s d v)) = r_max s
+     end.
+Proof.
+  unfold recv_streams_blocked. cbn [andb].
+  destruct (v <? pget (r_max s) d); [cbn; split; [intro; lia|reflexivity]|].
+  destruct (ctrl_on_blocked (r_ctrl s) d (pget (r_max s) d)) as [c up].
+  destruct (apply_up true (r_max s) d up) as [max' adv] eqn:E. cbn [fst snd r_max].
+  destruct (apply_up_spec _ _ _ _ _ E) as [H1 H2]. split; [exact H1|].
+  destruct adv; [tauto|exact H2].
+Qed.
+
+(* for every operation, including STREAMS_BLOCKED with any value, the limit does not decrease *)
+Lemma p_c12_limit_monotone_step strict peer x o :
+  max_le (r_max (rl_s x)) (r_max (rl_s (rl_step strict true peer x o))).
+Proof.
+  destruct o as [d idx|d|d idx|d v]; cbn [rl_step].
+  - pose proof (accept_max_mono strict (rl_s x) d idx) as M.
+    destruct (try_accept_sid strict true (rl_s x) d idx) as [[s' res] up]. cbn [fst] in M.
+    destruct res; exact M.
+  - destruct (qget (rl_q x) d); intro; cbn; lia.
+  - apply end_max_mono.
+  - apply blocked_max_mono.
+Qed.
+
+Lemma p_c12_limit_monotone strict peer ops x :
+  max_le (r_max (rl_s x)) (r_max (rl_s (rl_exec strict true peer ops x))).
+Proof.
+  unfold rl_exec. revert x. induction ops as [|o rest IH]; intro x; cbn [fold_left]; [intro; lia|].
+  intro d. pose proof (p_c12_limit_monotone_step strict peer x o d).
+  pose proof (IH (rl_step strict true peer x o) d). lia.
+Qed.
+
+(* the value carried by the peer's STREAMS_BLOCKED frame has no influence beyond "stale or not":
+   the new limit is a function of the receiver's own state *)
+Lemma p_c12_blocked_own_state s d v v' :
+  pget (r_max s) d <= v -> pget (r_max s) d <= v' ->
+  recv_streams_blocked true s d v = recv_streams_blocked true s d v'.
+Proof.
+  intros H H'. unfold recv_streams_blocked. cbn [andb].
+  destruct (N.ltb_spec v (pget (r_max s) d)); [lia|].
+  destruct (N.ltb_spec v' (pget (r_max s) d)); [lia|]. reflexivity.
+Qed.
+Lemma p_c12_blocked_stale s d v :
+  v < pget (r_max s) d -> recv_streams_blocked true s d v = (s, None).
+Proof.
+  intro H. unfold recv_streams_blocked. cbn [andb].
+  destruct (N.ltb_spec v (pget (r_max s) d)); [reflexivity|lia].
+Qed.
+(* DemandConcurrency: exactly one more stream per demand; ConsistentConcurrency: unmoved *)
+Lemma p_c12_blocked_demand s d v :
+  r_ctrl s = Demand -> pget (r_max s) d <= v ->
+  recv_streams_blocked true s d v
+  = (mkrsid (pset (r_max s) d (pget (r_max s) d + 1)) (r_next s) Demand, Some (pget (r_max s) d + 1)).
+Proof.
+  intros Hc H. unfold recv_streams_blocked. cbn [andb]. rewrite Hc.
+  destruct (N.ltb_spec v (pget (r_max s) d)); [lia|].
+  cbn [ctrl_on_blocked apply_up raise_limit].
+  destruct (N.ltb_spec (pget (r_max s) d) (pget (r_max s) d + 1)); [reflexivity|lia].
+Qed.
+Lemma p_c12_blocked_consistent s d v ms :
+  r_ctrl s = Consistent ms -> fst (recv_streams_blocked true s d v) = s /\ snd (recv_streams_blocked true s d v) = None.
+Proof.
+  intros Hc. unfold recv_streams_blocked. cbn [andb]. rewrite Hc.
+  destruct (v <? pget (r_max s) d); [auto|]. cbn. destruct s; cbn in *; subst; auto.
+Qed.
+(* ConsistentConcurrency keeps its own counter equal to the limit, so each ended stream adds one *)
+Definition ctrl_synced (s : rsid) : Prop :=
+  match r_ctrl s with Consistent ms => ms = r_max s | Demand => True end.
+Lemma p_c12_end_consistent s d idx :
+  ctrl_synced s ->
+  ctrl_synced (fst (on_end_of_stream true s d idx))
+  /\ match r_ctrl s with
+     | Consistent _ => snd (on_end_of_stream true s d idx) = Some (pget (r_max s) d + 1)
+     | Demand => snd (on_end_of_stream true s d idx) = None
+     end.
+Proof.
+  unfold ctrl_synced, on_end_of_stream. destruct (r_ctrl s) as [ms|] eqn:C.
+  - intros ->. cbn [ctrl_on_end apply_up raise_limit].
+    destruct (N.ltb_spec (pget (r_max s) d) (pget (r_max s) d + 1)); [|lia].
+    cbn [fst snd r_ctrl r_max]. auto.
+  - intros _. cbn. auto.
+Qed.
+
+(* before the repair: DemandConcurrency, limit 6, STREAMS_BLOCKED(1) -> limit 2 *)
+Lemma p_c12_limit_monotone_refuted :
+  exists s d v, pget (r_max (fst (recv_streams_blocked false s d v))) d < pget (r_max s) d.
+Proof. exists (mkrsid (6, 6) (0, 0) Demand), Bi, 1. vm_compute. reflexivity. Qed.
